@@ -19,6 +19,8 @@
 (*     check "the code-shaped model satisfies the property" (leg A);        *)
 (*  3. the tiny life cycle of one case                                       *)
 (*        stub -setup-> ready -open-> opened -chain-> chained -request-> done*)
+(*     or, with a commitment PENDING while the chain changes,               *)
+(*        .. chained -request1-> pending -chain2-> chained2 -request-> done *)
 (*     with the ghost `acc` (what was ACCEPTED, together with the rules it  *)
 (*     breaks) and the property as the invariant Inv_C05 over the ghost.    *)
 (*                                                                         *)
@@ -87,7 +89,7 @@ Tag(r) ==
     [] r = "first_htlcs"  -> <<"policy", "commitment", "first", "no", "htlcs">>
     [] r = "first_value"  -> <<"policy", "commitment", "initial", "funding", "value">>
 \* outputs that do not add up are not a matter of policy: no filter can make them acceptable
-Downgradable(r) == r \notin {"overflow", "underflow"}
+Downgradable(r) == r \notin {"overflow", "underflow", "state"}
 
 \* ---- the policy filter: the first matching rule decides, no match = error.
 \* A tag is the sequence of its '-'-separated words.  A prefix rule stands for the string of
@@ -130,8 +132,10 @@ ViolatedSetup(pol, s) ==
   \cup (IF s.cdelay < pol.min_delay \/ s.cdelay > pol.max_delay THEN {"delay_holder"} ELSE {})
   \cup (IF s.hdelay < pol.min_delay \/ s.hdelay > pol.max_delay THEN {"delay_cp"} ELSE {})
 
-\* the commitment r with number n on side `side`; isNew: it is not a retry of an accepted one
-ViolatedCommit(pol, s, ch, side, n, r) ==
+\* the commitment r with number n on side `side`; fresh: it is NEW, i.e. this very commitment
+\* (side, number, contents) was not accepted before - a commitment with different contents for
+\* a number that was already validated / signed IS new
+ViolatedCommit(pol, s, ch, side, n, r, fresh) ==
   LET k     == NHtlc(r)
       hsum  == HtlcSum(r)
       outs  == Add(Add(r.to_b, r.to_c), hsum)
@@ -146,8 +150,8 @@ ViolatedCommit(pol, s, ch, side, n, r) ==
       All   == {r.off[i] : i \in 1..Len(r.off)} \cup {r.rcv[i] : i \in 1..Len(r.rcv)}
   IN
      (IF side = "cp" /\ Gt(s.value, pol.max_chan) THEN {"chan_size"} ELSE {})
-  \cup (IF pol.vk = "onchain" /\ n > 0 /\ FundDepth(ch) < MIN_FUNDING_DEPTH THEN {"unburied"} ELSE {})
-  \cup (IF pol.vk = "onchain" /\ n > 0 /\ CloseDepth(ch) > 0 THEN {"closed"} ELSE {})
+  \cup (IF pol.vk = "onchain" /\ n > 0 /\ fresh /\ FundDepth(ch) < MIN_FUNDING_DEPTH THEN {"unburied"} ELSE {})
+  \cup (IF pol.vk = "onchain" /\ n > 0 /\ fresh /\ CloseDepth(ch) > 0 THEN {"closed"} ELSE {})
   \cup (IF ~IsZero(r.to_b) /\ Lt(r.to_b, N(CHAN_DUST)) THEN {"dust_b"} ELSE {})
   \cup (IF ~IsZero(r.to_c) /\ Lt(r.to_c, N(CHAN_DUST)) THEN {"dust_c"} ELSE {})
   \cup (IF k > pol.max_htlcs THEN {"count"} ELSE {})
@@ -254,66 +258,105 @@ TriggeredOnchain(pol, ch, n) ==
     ELSE << >>
 
 \* sign_counterparty_commitment_tx_phase2 / validate_holder_commitment_tx_phase2 with counterparty
-\* signatures that verify and payments that are approved; nh = next holder commitment number
+\* signatures that verify and payments that are approved.  st: the enforcement state as far as the
+\* life cycles reach it (no revocations): nh / nc next holder / counterparty commitment number,
+\* curH / curC current contents (<< >> or << r >>), nextH the validated, not yet revoked one.
+\* "state": a refusal by the enforcement state machine (Channel.tla: retry with changed
+\* contents, revoked or future number), not a rule of C05.
 \* After validation the transactions are rebuilt (LDK): a second-level HTLC transaction whose fee
 \* exceeds the HTLC cannot be built ("builder": an internal error, or no signature can exist)
 Unbuildable(s, r) ==
   /\ s.ctype # "zerofee"
   /\ \/ \E i \in 1..Len(r.off) : Lt(r.off[i].v, Div(MulInt(r.feerate, TimeoutW(s.ctype)), 1000))
      \/ \E i \in 1..Len(r.rcv) : Lt(r.rcv[i].v, Div(MulInt(r.feerate, SuccessW(s.ctype)), 1000))
-StepCommit(pol, s, ch, side, n, r, nh, Sw) ==
-  LET v == FirstBinding(pol.filter,
-             (IF side = "cp" THEN Opt(Gt(s.value, pol.max_chan), "chan_size") ELSE << >>)
-          \o (IF side = "cp" \/ nh <= n THEN TriggeredOnchain(pol, ch, n) ELSE << >>)
-          \o TriggeredCommon(pol, s, ch, side, n, r, Sw), 1) IN
+StepCommit(pol, s, ch, side, n, r, st, Sw) ==
+  LET common == TriggeredCommon(pol, s, ch, side, n, r, Sw)
+      seq == IF side = "cp"
+               THEN Opt(Gt(s.value, pol.max_chan), "chan_size")
+                 \o TriggeredOnchain(pol, ch, n)                       \* every number > 0, retries included
+                 \o common
+                 \o Opt(n > 1, "state")                                 \* n > next_counterparty_revoke_num + 1
+                 \o Opt(n + 1 = st.nc /\ st.curC # << r >>, "state")     \* retry with changed contents
+                 \o Opt(n + 1 # st.nc /\ n # st.nc, "state")            \* neither current nor next
+               ELSE Opt(n > st.nh + 1, "state")                         \* no commitment point that far ahead
+                 \o (IF st.nh <= n THEN TriggeredOnchain(pol, ch, n) ELSE << >>)
+                 \o common
+                 \o Opt(n + 1 = st.nh /\ st.curH # << r >>, "state")     \* retry with changed contents
+                 \o Opt(n + 2 <= st.nh, "state")
+      v == FirstBinding(pol.filter, seq, 1) IN
   Resp(IF v = "none" /\ Unbuildable(s, r) THEN "builder" ELSE v)
 
 (***************************************************************************)
 (* 3. LIFE CYCLE OF ONE CASE AND THE PROPERTY                               *)
 (*    st = [ph, nh, nc, ch]; events "setup", "open", "chain", "request"      *)
 (***************************************************************************)
-Phases == {"stub", "ready", "opened", "chained", "done", "dead"}
-InitSt(c) == [ph |-> "stub", nh |-> 0, nc |-> 0,
-              ch |-> [h0 |-> c.chain.h0, blocks |-> 0, fund_at |-> 0, close_at |-> 0]]
+Phases == {"stub", "ready", "opened", "chained", "pending", "chained2", "done", "dead"}
+NoChain(h0) == [h0 |-> h0, blocks |-> 0, fund_at |-> 0, close_at |-> 0]
+InitSt(c) == [ph |-> "stub", nh |-> 0, nc |-> 0, curH |-> << >>, nextH |-> << >>, curC |-> << >>,
+              acc |-> {}, ch |-> NoChain(c.chain.h0)]
 
+\* kind "setup": setup_channel only; "commit": [open when n > 0] ; chain ; request;
+\* "seq": open ; chain ; request1 (c.seq.req1, same side and number) ; chain2 (the chain changes
+\* to c.seq.chain2: blocks added or disconnected) ; request (c.req, the same number again)
+NeedsOpen(c) == c.n > 0 \/ c.kind = "seq"
 \* the event enabled in a state of case c ("none": the behaviour is over)
 EventOf(c, st) ==
   CASE st.ph = "stub" -> "setup"
-    [] st.ph = "ready" -> IF c.kind = "setup" THEN "none" ELSE IF c.n = 0 THEN "chain" ELSE "open"
+    [] st.ph = "ready" -> IF c.kind = "setup" THEN "none" ELSE IF NeedsOpen(c) THEN "open" ELSE "chain"
     [] st.ph = "opened" -> "chain"
-    [] st.ph = "chained" -> "request"
+    [] st.ph = "chained" -> IF c.kind = "seq" THEN "request1" ELSE "request"
+    [] st.ph = "pending" -> "chain2"
+    [] st.ph = "chained2" -> "request"
     [] OTHER -> "none"
 
 \* the open step presents the initial commitment of either side
 PreHolder(c) == c.pre.holder
 PreCp(c)     == c.pre.cp
+ReqOfEv(c, ev) == IF ev = "request1" THEN c.seq.req1 ELSE c.req
+Fresh(st, side, n, r) == <<side, n, r>> \notin st.acc
 
 \* what the model answers to the event
 ModelResp(c, st, ev, Sw) ==
   CASE ev = "setup" -> StepSetup(c.pol, c.setup)
     [] ev = "open" ->
-         LET a == StepCommit(c.pol, c.setup, st.ch, "cp", 0, PreCp(c), st.nh, Sw)
-             b == StepCommit(c.pol, c.setup, st.ch, "holder", 0, PreHolder(c), st.nh, Sw) IN
+         LET a == StepCommit(c.pol, c.setup, st.ch, "cp", 0, PreCp(c), st, Sw)
+             b == StepCommit(c.pol, c.setup, st.ch, "holder", 0, PreHolder(c), st, Sw) IN
          IF ~a.ok THEN a ELSE b
-    [] ev = "chain" -> Resp("none")
-    [] ev = "request" -> StepCommit(c.pol, c.setup, st.ch, c.side, c.n, c.req, st.nh, Sw)
+    [] ev \in {"chain", "chain2"} -> Resp("none")
+    [] ev \in {"request", "request1"} -> StepCommit(c.pol, c.setup, st.ch, c.side, c.n, ReqOfEv(c, ev), st, Sw)
+
+\* the enforcement state after an ACCEPTED commitment request
+Accepted(st, side, n, r) ==
+  LET s1 == [st EXCEPT !.acc = @ \cup {<<side, n, r>>}] IN
+  IF side = "holder"
+    THEN IF n = st.nh THEN [s1 EXCEPT !.nextH = << r >>] ELSE s1
+    ELSE IF n = st.nc THEN [s1 EXCEPT !.nc = n + 1, !.curC = << r >>] ELSE s1
 
 \* the state after the event was answered with ok / not ok
 After(c, st, ev, ok) ==
   CASE ev = "setup" -> [st EXCEPT !.ph = IF ok THEN "ready" ELSE "dead"]
-    [] ev = "open"  -> IF ok THEN [st EXCEPT !.ph = "opened", !.nh = 1, !.nc = 1] ELSE [st EXCEPT !.ph = "dead"]
+    [] ev = "open"  -> IF ok THEN [st EXCEPT !.ph = "opened", !.nh = 1, !.nc = 1, !.curH = << PreHolder(c) >>,
+                                              !.curC = << PreCp(c) >>,
+                                              !.acc = {<<"holder", 0, PreHolder(c)>>, <<"cp", 0, PreCp(c)>>}]
+                       ELSE [st EXCEPT !.ph = "dead"]
     [] ev = "chain" -> [st EXCEPT !.ph = "chained",
                                   !.ch = [h0 |-> c.chain.h0, blocks |-> c.chain.blocks,
                                           fund_at |-> c.chain.fund_at, close_at |-> c.chain.close_at]]
-    [] ev = "request" -> [st EXCEPT !.ph = "done"]
+    [] ev = "chain2" -> [st EXCEPT !.ph = "chained2",
+                                   !.ch = [h0 |-> c.chain.h0, blocks |-> c.seq.chain2.blocks,
+                                           fund_at |-> c.seq.chain2.fund_at, close_at |-> c.seq.chain2.close_at]]
+    [] ev = "request1" -> [(IF ok THEN Accepted(st, c.side, c.n, c.seq.req1) ELSE st) EXCEPT !.ph = "pending"]
+    [] ev = "request" -> [(IF ok THEN Accepted(st, c.side, c.n, c.req) ELSE st) EXCEPT !.ph = "done"]
 
-\* the rules broken by what the event asks to accept (evaluated on the inputs only)
+\* the rules broken by what the event asks to accept (evaluated on the inputs and on what was
+\* ACCEPTED before, nothing else)
 BrokenBy(c, st, ev) ==
   CASE ev = "setup" -> ViolatedSetup(c.pol, c.setup)
-    [] ev = "open" -> ViolatedCommit(c.pol, c.setup, st.ch, "cp", 0, PreCp(c))
-                        \cup ViolatedCommit(c.pol, c.setup, st.ch, "holder", 0, PreHolder(c))
-    [] ev = "chain" -> {}
-    [] ev = "request" -> ViolatedCommit(c.pol, c.setup, st.ch, c.side, c.n, c.req)
+    [] ev = "open" -> ViolatedCommit(c.pol, c.setup, st.ch, "cp", 0, PreCp(c), TRUE)
+                        \cup ViolatedCommit(c.pol, c.setup, st.ch, "holder", 0, PreHolder(c), TRUE)
+    [] ev \in {"chain", "chain2"} -> {}
+    [] ev \in {"request", "request1"} ->
+         ViolatedCommit(c.pol, c.setup, st.ch, c.side, c.n, ReqOfEv(c, ev), Fresh(st, c.side, c.n, ReqOfEv(c, ev)))
 
 \* ghost: the bound rules broken by an ACCEPTED event (empty: nothing wrong was accepted)
 GhostAfter(c, st, ev, ok) == IF ok THEN Binding(c.pol, BrokenBy(c, st, ev)) ELSE {}
